@@ -117,7 +117,7 @@ class Scheduler:
     # ---- tasks ---------------------------------------------------------
     def spawn(self, name: str, fn: Callable[[], Any]) -> Task:
         t = Task(self, name, fn)
-        if self.strategy["kind"] == "pct":
+        if self.strategy["kind"] in ("pct", "pct_fair"):
             t.priority = 1.0 + self.draw(1000) / 1000.0
         self.tasks.append(t)
         t.state = "ready"
@@ -208,10 +208,19 @@ class Scheduler:
                 cur.priority = -float(self.steps)
             best = max(ready, key=lambda t: (t.priority, -self.tasks.index(t)))
             return best
+        if k == "pct_fair":
+            # strict priorities (long deschedules of one task, like PCT) but all priorities are re-drawn every `period`
+            # steps, which makes the schedule fair in the long run (needed by liveness oracles)
+            period = self.strategy.get("period", 150)
+            if self.steps % period == 0:
+                for t in self.tasks:
+                    t.priority = 1.0 + self.draw(1000) / 1000.0
+            best = max(ready, key=lambda t: (t.priority, -self.tasks.index(t)))
+            return best
         return cur
 
     def _choose(self, ready: list[Task]) -> Task:
-        if self.strategy["kind"] == "pct":
+        if self.strategy["kind"] in ("pct", "pct_fair"):
             return max(ready, key=lambda t: (t.priority, -self.tasks.index(t)))
         return ready[self.draw(len(ready))]
 
@@ -528,4 +537,5 @@ STRATEGIES = [
     {"kind": "random", "p": 0.02}, {"kind": "random", "p": 0.1}, {"kind": "random", "p": 0.3}, {"kind": "random", "p": 0.6},
     {"kind": "pct", "d": 0}, {"kind": "pct", "d": 1}, {"kind": "pct", "d": 2}, {"kind": "pct", "d": 3},
     {"kind": "bursty", "q": 0.15}, {"kind": "bursty", "q": 0.4},
+    {"kind": "pct_fair", "period": 60}, {"kind": "pct_fair", "period": 250}, {"kind": "pct_fair", "period": 1000},
 ]
